@@ -15,7 +15,7 @@ use std::sync::{Arc, Mutex};
 use std::time::{Duration, Instant};
 
 const UNIT_LIMIT: Duration = Duration::from_secs(120);
-const SOLO_LIMIT: Duration = Duration::from_secs(60);
+const SOLO_LIMIT: Duration = Duration::from_secs(25);
 /// After this many worker deaths / timeouts the campaign stops handing out units: a tree on which
 /// most cases hang or abort is reported from the first few instead of being waited out
 const DEATH_BREAKER: usize = 16;
@@ -692,8 +692,16 @@ pub fn check(check: &str, tier: Tier) -> i32 {
         handles.push(std::thread::spawn(move || {
             let mut worker: Option<Worker> = None;
             loop {
-                if shared.agg.lock().unwrap().deaths.len() >= DEATH_BREAKER {
-                    break;
+                {
+                    let agg = shared.agg.lock().unwrap();
+                    let timeouts = agg
+                        .deaths
+                        .iter()
+                        .filter(|d| matches!(d.1, Death::Timeout))
+                        .count();
+                    if agg.deaths.len() >= DEATH_BREAKER || timeouts >= 4 {
+                        break;
+                    }
                 }
                 let n = shared.next.fetch_add(1, Ordering::SeqCst);
                 if n >= shared.units {
@@ -742,7 +750,7 @@ pub fn check(check: &str, tier: Tier) -> i32 {
     // Worker deaths: attribute to a case by running each case of the unit alone in a fresh child
     let deaths = std::mem::take(&mut agg.deaths);
     let total_deaths = deaths.len();
-    if total_deaths >= DEATH_BREAKER {
+    if agg.done_units + (total_deaths as u64) < units {
         agg.report.notes.insert(format!(
             "campaign stopped early after {total_deaths} worker deaths / timeouts ({} of {} units done)",
             agg.done_units, units
@@ -753,7 +761,15 @@ pub fn check(check: &str, tier: Tier) -> i32 {
             "{total_deaths} worker deaths; only the first 12 were attributed to a case by solo re-execution"
         ));
     }
+    // a hang costs the solo limit per attribution: three attributed hangs are enough to report
+    let mut hangs_attributed = 0usize;
     for (unit, d) in deaths.into_iter().take(12) {
+        if matches!(d, Death::Timeout) {
+            if hangs_attributed >= 3 {
+                continue;
+            }
+            hangs_attributed += 1;
+        }
         println!("worker died in unit {unit}: {}", d.describe());
         let cases = ctx.unit_cases(unit);
         let mut attributed = false;
@@ -801,7 +817,7 @@ pub fn check(check: &str, tier: Tier) -> i32 {
                         attributed = true;
                         attributed_n += 1;
                         agg.findings.push((unit, f, Some(c.to_json())));
-                        if attributed_n >= only_first {
+                        if attributed_n >= only_first || matches!(death, Death::Timeout) {
                             break;
                         }
                     }
@@ -963,7 +979,7 @@ pub fn check(check: &str, tier: Tier) -> i32 {
             ));
             continue;
         }
-        let (min_case, runs, complete) = if class == "nondeterministic-across-processes" {
+        let (min_case, runs, complete) = if class == "nondeterministic-across-processes" || class == "hang" {
             (case.clone(), 0, false)
         } else {
             minimise(ctx_args, &case, &f)
